@@ -457,6 +457,15 @@ CONFIGS = [
 ]
 
 
+# the wording of navigation rules depends on NavVerbosity (and rule files put actions inside such tests): the place-marker histories and,
+# in the thorough tier, the corpus walks also run under the two non-default verbosities
+VERB_CONFIGS = [
+    ("Enhanced/Terse", [["pref", "NavMode", "Enhanced"], ["pref", "Overview", "false"], ["pref", "AutoZoomOut", "true"], ["pref", "NavVerbosity", "Terse"]]),
+    ("Simple/Verbose", [["pref", "NavMode", "Simple"], ["pref", "Overview", "false"], ["pref", "AutoZoomOut", "true"], ["pref", "NavVerbosity", "Verbose"]]),
+    ("Character/Terse", [["pref", "NavMode", "Character"], ["pref", "Overview", "false"], ["pref", "AutoZoomOut", "true"], ["pref", "NavVerbosity", "Terse"]]),
+]
+
+
 def main(tier):
     run = Run("C11", tier, "model_checking")
     base = [["pref", "TTS", "none"], ["pref", "Language", "en"]]
@@ -497,7 +506,8 @@ def main(tier):
     corp = corpus_terms(tier)
     run.count("corpus_terms", len(corp))
     cjobs = []
-    for cname in (("Enhanced", "Simple", "Character") if tier == "quick" else [c for c, _ in CONFIGS]):
+    cfg.update(dict(VERB_CONFIGS))
+    for cname in (("Enhanced", "Simple", "Character") if tier == "quick" else [c for c, _ in CONFIGS + VERB_CONFIGS]):
         for i in range(0, len(corp), 40):
             cjobs.append((cname, base + cfg[cname], corp[i:i + 40]))
     for viol, counts, outcomes in mcx.pmap(work_corpus, cjobs):
@@ -506,8 +516,8 @@ def main(tier):
         stats["transitions"] += counts["corpus_transitions"]
         stats["outcomes"] |= outcomes
     kh = key_histories()
-    run.count("key_histories", len(kh) * 3)
-    kjobs = [(cname, base + cfg[cname], kh[i:i + 20]) for cname in ("Enhanced", "Simple", "Character") for i in range(0, len(kh), 20)]
+    run.count("key_histories", len(kh) * 6)
+    kjobs = [(cname, base + cfg[cname], kh[i:i + 20]) for cname in ("Enhanced", "Simple", "Character", "Enhanced/Terse", "Simple/Verbose", "Character/Terse") for i in range(0, len(kh), 20)]
     for viol, n in mcx.pmap(work_keys, kjobs):
         run.merge_violations(viol)
         stats["transitions"] += n
@@ -523,7 +533,7 @@ def main(tier):
              "rare transitions (place markers, toggles, set_mathml, set_navigation_node) at most twice per path; per run: " + json.dumps(per) +
              "; expression breadth: one fixed walk of %d commands (moves, reads, marks, undo, toggles) over %d terms (spine terms, trigger terms, deviations with missing/empty parts) "
              "in %s, the same invariants after every step; place markers through do_navigate_keypress: every ordered pair of the ten markers "
-             "set and reached by keys, each marker set by key / reached by command and the reverse, in three modes. distinct_nontrivial = distinct command results observed" % (len(WALK), len(corp), "3 navigation modes" if tier == "quick" else "all 6 configurations"),
+             "set and reached by keys, each marker set by key / reached by command and the reverse, in three modes and under NavVerbosity Terse / Verbose. distinct_nontrivial = distinct command results observed" % (len(WALK), len(corp), "3 navigation modes" if tier == "quick" else "all 6 configurations"),
         coverage_extra={"states": stats["states"], "transitions": stats["transitions"], "traces_validated_against_impl": stats["traces"],
                         "frontier_sizes": stats["levels"], "runs": per},
         assumptions=["the hook's restore is validated against replay through the public API for every state of the first levels (a disagreement aborts the run as a machinery error)",
